@@ -167,13 +167,36 @@ macro_rules! trace_mod {
             if c.iter().step_by(2).map(|(k, _)| k.tok).collect::<Vec<_>>() != lru_first.iter().step_by(2).map(|x| x.1).collect::<Vec<_>>() { api.push("iter_nth"); }
             if c.iter().fold(0u64, |a, (k, _)| a.wrapping_mul(31).wrapping_add(k.tok)) != lru_first.iter().fold(0u64, |a, x| a.wrapping_mul(31).wrapping_add(x.1)) { api.push("iter_fold"); }
             if c.iter().rfold(0u64, |a, (k, _)| a.wrapping_mul(31).wrapping_add(k.tok)) != lru_first.iter().rfold(0u64, |a, x| a.wrapping_mul(31).wrapping_add(x.1)) { api.push("iter_fold"); }
-            // an exhausted iterator stays exhausted for every way of asking
-            { let mut it = c.iter(); while it.next().is_some() {} if it.next_back().is_some() || it.nth(0).is_some() || it.last().is_some() { api.push("iter_last"); } }
-            { let mut it = c.iter(); while it.next().is_some() {} if it.count() != 0 { api.push("iter_count"); } }
-            { let mut it = c.values(); while it.next().is_some() {} if it.fold(0usize, |a, _| a + 1) != 0 { api.push("iter_fold"); } }
-            { let mut it = c.keys(); while it.next_back().is_some() {} if it.next().is_some() || it.nth_back(0).is_some() || it.size_hint().0 != 0 || it.last().is_some() { api.push("iter_last"); } }
-            { let mut it = c.values(); for _ in 0..nodes.len() { it.next(); } if it.rev().last().is_some() { api.push("iter_last"); } }
-            { let mut it = c.iter(); it.next_back(); if it.last().map(|(k, _)| k.tok) != (if nodes.len() >= 2 { Some(lru_first[nodes.len() - 2].1) } else { None }) { api.push("iter_last"); } }
+            // an exhausted iterator stays exhausted for every way of asking. Every state is first probed with a BOUNDED number
+            // of single steps (an iterator that does not stop within len + 2 steps is reported, not followed), and only then
+            // handed to the by-value trait methods, which would otherwise loop for ever on such an iterator
+            {
+                let b = nodes.len() + 2;
+                fn ends_f<I: Iterator>(mut it: I, bound: usize) -> bool { for _ in 0..bound { if it.next().is_none() { return true; } } false }
+                fn drain_f<I: Iterator>(it: &mut I, bound: usize) -> bool { for _ in 0..bound { if it.next().is_none() { return true; } } false }
+                fn drain_b<I: DoubleEndedIterator>(it: &mut I, bound: usize) -> bool { for _ in 0..bound { if it.next_back().is_none() { return true; } } false }
+                // front-exhausted
+                let mk1 = || { let mut it = c.iter(); let ok = drain_f(&mut it, b); (it, ok) };
+                let (mut it, ok) = mk1();
+                if !ok || it.next_back().is_some() || it.nth(0).is_some() || !ends_f(mk1().0, b) { api.push("iter_last"); }
+                else {
+                    if mk1().0.last().is_some() { api.push("iter_last"); }
+                    if mk1().0.count() != 0 { api.push("iter_count"); }
+                    if mk1().0.fold(0usize, |a, _| a + 1) != 0 { api.push("iter_fold"); }
+                }
+                // back-exhausted (the last entry was taken from the back)
+                let mk2 = || { let mut it = c.keys(); let ok = drain_b(&mut it, b); (it, ok) };
+                let (mut it, ok) = mk2();
+                if !ok || it.next().is_some() || it.nth_back(0).is_some() || it.size_hint().0 != 0 || !ends_f(mk2().0, b) { api.push("iter_last"); }
+                else if mk2().0.last().is_some() || mk2().0.count() != 0 { api.push("iter_last"); }
+                // exactly len steps from the front, then asked from the back
+                let mk3 = || { let mut it = c.values(); for _ in 0..nodes.len() { it.next(); } it };
+                if !ends_f(mk3().rev(), b) || mk3().rev().last().is_some() { api.push("iter_last"); }
+                // one step from the back, then the rest from the front
+                let mk4 = || { let mut it = c.iter(); it.next_back(); it };
+                if !ends_f(mk4(), b) { api.push("iter_last"); }
+                else if mk4().last().map(|(k, _)| k.tok) != (if nodes.len() >= 2 { Some(lru_first[nodes.len() - 2].1) } else { None }) { api.push("iter_last"); }
+            }
             if c.len() != nodes.len() || c.len() != g.len { api.push("len"); }
             if c.is_empty() != nodes.is_empty() { api.push("is_empty"); }
             if c.current_size() != g.current_size || c.max_size() != g.max_size || c.capacity() != g.capacity { api.push("scalars"); }
